@@ -67,6 +67,8 @@ func init() {
 			{ID: "C03-R35", Title: "levels added in a loop stay counted", Floor: 1, Run: levelsAddedInALoopStayCounted},
 			{ID: "C03-R36", Title: "parse results are not asserted blind", Floor: 1, Run: parseResultsAreNotAssertedBlind},
 			{ID: "C03-R37", Title: "what a walk enters it leaves on every path (shared with C19-R24)", Floor: 2, Run: whatIsEnteredIsLeft},
+			{ID: "C03-R38", Title: "parse results are not used before they are tested", Floor: 1, Run: parseResultsAreNotUsedBeforeTheyAreTested},
+			{ID: "C03-R39", Title: "what errors.As found is used only when it found it", Floor: 1, Run: whatErrorsAsFoundIsUsedOnlyWhenItFoundIt},
 		},
 	})
 }
